@@ -32,6 +32,10 @@ DEFAULT_PROFILE = dict(
     max_depth=3, p_int_forms=0.5,
     p_vfunc_no_self=0.12,    # virtual functions declared without receiver (their wrapper does not compile: F21)
     packed_clone=False,      # `#[packed, cloneable]` (rustc accepts it only when every field is Copy)
+    p_empty=0.06,            # types without any member (size 0, alignment = pointer size unless declared)
+    p_zst_field=0.12,        # a by-value field of a zero-sized user type, when one is visible
+    p_zst_miss=0.3,          # ... placed one byte off its alignment (near-miss: must be rejected)
+    p_big_discr=0.0,         # an enum discriminant literal in 2^63 .. 2^64-1 (pyxis reads literals as isize: a parse error today)
 )
 
 
@@ -150,6 +154,11 @@ class Gen:
             fl2["array"] = True
             return ("[%s; %s]" % (inner, int_lit(rng, n, self.chance("p_int_forms"))), s * n, a, fl2)
         users = [t for t in self.visible_types(mod) if t.kind in ("type", "enum", "extern")]
+        zsts = [t for t in users if t.kind == "type" and t.size == 0]
+        if zsts and depth == 0 and rng.random() < self.p["p_zst_field"]:
+            t = rng.choice(zsts)
+            return (self.ref_name(mod, t), t.size, t.align,
+                    {"user": t, "copyable": t.copyable, "cloneable": t.cloneable, "defaultable": t.defaultable})
         if users and rng.random() < self.p["p_user_field"]:
             t = rng.choice(users)
             return (self.ref_name(mod, t), t.size, t.align,
@@ -210,6 +219,7 @@ class Gen:
                 self.expect["miss"] = "unresolvable return type"
         pub = rng.random() < 0.75
         text = docs
+        rng.shuffle(attrs)       # the order of attributes carries no meaning
         if attrs:
             if rng.random() < 0.5 or len(attrs) == 1:
                 text += "    #[%s]\n" % ", ".join(attrs)
@@ -228,6 +238,7 @@ class Gen:
             attrs.append("index(%d)" % index)
         if d.get("cc_explicit"):
             attrs.append('calling_convention("%s")' % d["cc_explicit"])
+        self.rng.shuffle(attrs)
         if attrs:
             text += "    #[%s]\n" % ", ".join(attrs)
         args = ([d["selfkind"]] if d["selfkind"] else []) + ["%s: %s" % (a, t) for a, t in d["args"]]
@@ -299,6 +310,15 @@ class Gen:
             cname = "V%d" % i
             explicit = rng.random() < 0.4
             nxt = 0 if cur is None else cur + 1
+            if base in ("u64", "i64", "u128", "i128") and rng.random() < self.p["p_big_discr"]:
+                v = rng.choice([2**63, 2**64 - 1, rng.randint(2**63, 2**64 - 1)])
+                if v in used:
+                    break
+                used.add(v)
+                cur = v
+                values.append(v)
+                cases.append((cname, " = %s" % int_lit(rng, v, self.chance("p_int_forms"))))
+                continue
             if explicit or nxt > hi or nxt in used:
                 for _ in range(20):
                     k = rng.random()
@@ -473,7 +493,8 @@ class Gen:
         # bases first (they come first in C++ layouts)
         cands = [t for t in self.visible_types(mod) if t.kind == "type" and not t.packed]
         first_base = None
-        if cands and self.chance("p_base"):
+        empty = self.chance("p_empty")
+        if cands and not empty and self.chance("p_base"):
             nb = rng.choice([1, 1, 1, 2, 3])
             for bi in range(nb):
                 b = rng.choice(cands)
@@ -486,7 +507,7 @@ class Gen:
         if bases and bases[0].has_vftable:
             inherit = bases[0].vfuncs
             has_vftable = True
-        declare_vft = self.chance("p_vftable") or (inherit is not None and rng.random() < 0.5)
+        declare_vft = not empty and (self.chance("p_vftable") or (inherit is not None and rng.random() < 0.5))
         if declare_vft:
             block, vslots = self.gen_vfuncs(mod, name, inherit)
             stmts.append(block)
@@ -520,7 +541,14 @@ class Gen:
             if off - natural > 32:
                 all_default = False      # derive(Default) exists for arrays of at most 32 elements (documented fragment)
             nonlocal miss_here
-            if self.want_miss() and natural > 0:
+            if size == 0 and not zero_array and a > 1 and natural > 0 and self.p["miss"] > 0 and miss_here is None \
+                    and self.expect["miss"] is None and rng.random() < self.p["p_zst_miss"]:
+                # a zero-sized member still has an alignment: rustc pads in front of it
+                off = natural + (a - natural % a) % a + 1
+                explicit = True
+                miss_here = "zero-sized field off alignment by one"
+                self.miss_done = True
+            elif self.want_miss() and natural > 0:
                 k = rng.random()
                 if k < 0.5:
                     off = natural - 1
@@ -543,6 +571,7 @@ class Gen:
             al = list(attrs)
             if explicit:
                 al.append("address(%s)" % int_lit(rng, off, self.chance("p_int_forms")))
+            rng.shuffle(al)
             if al:
                 line += "    #[%s]\n" % ", ".join(al) if rng.random() < 0.6 else "".join("    #[%s]\n" % x for x in al)
             line += "    %s%s: %s" % (vis_, fname, ttext)
@@ -563,7 +592,7 @@ class Gen:
             all_clone &= b.cloneable
             all_default &= b.defaultable
             base_assoc.extend(b.assoc)
-        for i in range(self.r(self.p["fields"])):
+        for i in range(0 if empty else self.r(self.p["fields"])):
             ttext, size, align, fl = self.field_type(mod)
             fname = self.fresh("f")
             docs, dl = self.doc("    ")
